@@ -19,6 +19,7 @@ import (
 	"math/big"
 	"math/rand"
 	"os"
+	"strconv"
 	"strings"
 	"sync"
 	"time"
@@ -26,6 +27,7 @@ import (
 	"github.com/skycoin/skycoin/src/util/droplet"
 	"github.com/skycoin/skycoin/src/util/logging"
 
+	"verif/lib/rp"
 	"verif/lib/vf"
 )
 
@@ -197,7 +199,7 @@ func (c *checker) roundTrip(l *local, n uint64, class string) {
 	var back uint64
 	p, msg, frame = vf.Recover(func() { back, err = droplet.FromString(s) })
 	if p {
-		c.r.Violation("panic", map[string]string{"fn": "FromString", "frame": frame, "msg": msg, "input": s}, nil)
+		c.r.Violation("panic", map[string]string{"fn": "FromString", "frame": frame, "msg": msg, "input": fmt.Sprintf("%q", s), "leg": "roundtrip"}, nil)
 		return
 	}
 	if err != nil {
@@ -460,6 +462,21 @@ func main() {
 	}
 	r := vf.Start("C30", "exploration")
 	c := &checker{r: r}
+	if p := r.ReplayPath(); p != "" {
+		f := rp.Load(p, "C30")
+		l := newLocal()
+		if in, ok := f.Attrs["input"]; ok {
+			str, err := strconv.Unquote(in)
+			if err != nil {
+				fmt.Fprintln(os.Stderr, "replay:", err)
+				os.Exit(3)
+			}
+			c.parse(l, str, f.Attrs["leg"])
+		} else {
+			c.roundTrip(l, f.U64("n"), "replay")
+		}
+		rp.Done("C30", r.Violations())
+	}
 
 	var mu sync.Mutex
 	locals := []*local{}
